@@ -3,6 +3,10 @@ import Ach.Model.Layout
 import Ach.Generated.Layouts
 import Ach.Model.Mask
 import Ach.Model.CreateDriver
+import Ach.Model.PipelineDriver
+import Ach.Model.ServerDriver
+import Ach.Model.RepoDriver
+import Ach.Model.IODriver
 /-!
 `achmodel`: the executable model behind the correspondence check.  Reads one
 operation per line on stdin, writes one result line per operation.
@@ -86,7 +90,20 @@ partial def loop (cx : Ctx) (h : IO.FS.Stream) (out : IO.FS.Stream) : IO Unit :=
   out.putStrLn (step cx line)
   loop cx h out
 
-def main : IO Unit := do
+partial def readAll (h : IO.FS.Stream) (acc : Array String) : IO (Array String) := do
+  let line ← h.getLine
+  if line.isEmpty then return acc
+  readAll h (acc.push (line.trimAscii.toString))
+
+/-- `achmodel` reads operations line by line; `achmodel <stream>` for the stateful streams (repo, server, io,
+pipeline) hands the whole input to that model's `runOps` -/
+def main (args : List String) : IO Unit := do
   let out ← IO.getStdout
-  loop mkCtx (← IO.getStdin) out
+  let stdin ← IO.getStdin
+  match args with
+  | ["repo"] => for l in Ach.Repo.runOps (← readAll stdin #[]).toList do out.putStrLn l
+  | ["server"] => for l in Ach.Server.runOps (← readAll stdin #[]).toList do out.putStrLn l
+  | ["io"] => for l in Ach.IO.runOps (← readAll stdin #[]).toList do out.putStrLn l
+  | ["pipeline"] => for l in Ach.Pipeline.runOps (← readAll stdin #[]).toList do out.putStrLn l
+  | _ => loop mkCtx stdin out
   out.flush
